@@ -63,9 +63,21 @@ ERRNO = {'other': ['EACCES', 'EIO'], 'notFound': ['ENOENT']}
 TYPECHANGE = {'open': 'ELOOP', 'opendir': 'ENOTDIR', 'readlink': 'EINVAL'}
 
 
-def inject_fault(rng, nodes, top_path):
-    """Pick a node and a call; mutate the model node; return the interposer FAULT spec."""
+FORCED = [('opendir', 'ELOOP'), ('open', 'ENOTDIR'), ('readlink', 'ELOOP'), ('opendir', 'EINVAL'), ('open', 'EINVAL'), ('readlink', 'ENOTDIR')]
+
+
+def inject_fault(rng, nodes, top_path, force=None):
+    """Pick a node and a call; mutate the model node; return the interposer FAULT spec.
+    force=(call, errno): an errno that means "changed its type" for another call, at a node below the item root - an
+    ordinary error for this call (reported, exit status non-zero)."""
     cands = [(p, n) for p, n in nodes if n['kind'] in ('file', 'dir', 'symlink') and '\r' not in p]
+    if force is not None:
+        kind = {'opendir': 'dir', 'open': 'file', 'readlink': 'symlink'}[force[0]]
+        fc = [(p, n) for p, n in cands if n['kind'] == kind and p != top_path and force[0] not in n]
+        if fc:
+            p, n = rng.choice(fc)
+            n[force[0]] = 'other'
+            return '%s@%s=%s' % (force[0], p, force[1])
     if not cands:
         return None
     p, n = rng.choice(cands)
@@ -88,6 +100,9 @@ def inject_fault(rng, nodes, top_path):
             errno = TYPECHANGE[call]
     if cls != 'typeChange':
         errno = rng.choice(ERRNO[cls])
+        if cls == 'other' and rng.random() < 0.5:
+            # an errno that means "changed its type" for another call is an ordinary error for this one
+            errno = rng.choice([e for c_, e in sorted(TYPECHANGE.items()) if c_ != call])
     if call == 'lstat':
         # the whole node is replaced: nothing below it is visited
         n.clear()
@@ -180,6 +195,8 @@ def one_case(ctx, cid, seed, mode):
                 break
         # faults
         nf = 0 if mode == 'hooks' else rng.choice([0, 1, 1, 1, 2])
+        if mode == 'faults' and cid % 10 == 7:
+            nf = max(nf, 1)
         for _ in range(nf):
             pool = []
             for m in items:
@@ -190,7 +207,8 @@ def one_case(ctx, cid, seed, mode):
             if not pool:
                 break
             m, nodes = rng.choice(pool)
-            f = inject_fault(rng, nodes, '/' + '/'.join(m['resolved']))
+            force = FORCED[(cid // 10) % len(FORCED)] if (mode == 'faults' and cid % 10 == 7 and not faults) else None
+            f = inject_fault(rng, nodes, '/' + '/'.join(m['resolved']), force)
             if f:
                 faults.append(f)
         finish_ok = True
